@@ -1460,6 +1460,10 @@ func (ex *Executor) mapData(st *State, m MapV) *MapData {
 
 // findEntry forks over which entry (if any) equals key; returns index or -1.
 func (ex *Executor) findEntry(st *State, entries []MapEntry, key Val) int {
+	if iv, ok := key.(IfaceV); ok && iv.T != nil && !types.Comparable(iv.T) {
+		// an interface-typed key is hashed by its dynamic type: the runtime panics on types without equality
+		ex.goPanic(st, fmt.Sprintf("runtime error: hash of unhashable type %s", iv.T))
+	}
 	for i, e := range entries {
 		c := ex.valEq(e.K, key)
 		if ex.branch(st, c) {
